@@ -17,12 +17,12 @@ def sh(cmd, cwd):
 
 def main():
     prop, x, pkg, test, specific, desc = sys.argv[1:7]
-    wt = "/tmp/seed-%s" % prop
+    wt = os.environ.get("SEED_WT_PREFIX", "/tmp/seed-") + prop
     patch = os.path.join(wt, "seed_%s.patch" % x)
     demo = os.path.join(wt, pkg, "zz_seed_demo_%s_test.go" % x)
     assert os.path.exists(patch), patch
     assert os.path.exists(demo), demo
-    sid = "%s-%s" % (prop, x)
+    sid = "%s-%s" % (prop, os.environ.get("SEED_ID_" + x.upper(), x))
     out = {"id": sid, "property": prop, "description": desc, "needs_something_specific": specific == "yes",
            "demo": {"package": pkg, "test": test, "file": "demo_test.go"}}
     # park every demo file so that the suite is the existing one
